@@ -103,7 +103,16 @@ def wfProcessTaskEvent (k : TaskKey) (ev : Status) : M Unit := fun c =>
 def wfProcessWorkflowEvent (req : Status) : M Unit := fun c =>
   match wfOnWorkflowEvent c.st.status req c.st.hasActive c.st.hasStaged c.st.hasPaused with
   | .raise e => (.error (.machine e), c)
-  | .ok s' => (.ok (), { c with st := { c.st with status := s' } })
+  | .ok s' =>
+    let cur := c.st.status
+    let c1 := { c with st := { c.st with status := s' } }
+    if s' != cur && wfReqUnreachCheck s' then
+      let ub := unreachableBarriers c1
+      if ub.isEmpty then (.ok (), c1)
+      else
+        (forEach ub fun x => logError "UnreachableJoinError" (some x.id) (some x.route))
+          { c1 with st := { c1.st with status := .failed } }
+    else (.ok (), c1)
 
 /-- `TaskStateMachine.process_event(state, record, WorkflowExecutionEvent(status))` on record `i` -/
 def tkProcessWorkflowEvent (i : Nat) (req : Status) : M Unit := fun c =>
